@@ -485,10 +485,23 @@ class Component(System):
             return
 
         keyset = self._subjacs_info
+        outputs = list(self._var_allprocs_abs2meta['output'])
+
+        # Outputs whose residuals are coupled through declared output/output partials (implicit
+        # components) are solved together, so each of them depends on every input that any of
+        # them depends on.
+        coupled = {of: {of} for of in outputs}
+        for of in outputs:
+            for of2 in outputs:
+                if of != of2 and (of, of2) in keyset and coupled[of] is not coupled[of2]:
+                    merged = coupled[of] | coupled[of2]
+                    for name in merged:
+                        coupled[name] = merged
+
         mset = set()
-        for of in self._var_allprocs_abs2meta['output']:
+        for of in outputs:
             for wrt in self._var_allprocs_abs2meta['input']:
-                if (of, wrt) not in keyset:
+                if not any((of2, wrt) in keyset for of2 in coupled[of]):
                     mset.add((of, wrt))
 
         if mset:
